@@ -2465,3 +2465,82 @@ package connect
 //@   ensures res != nil && (old(c.err) != nil ==> res.err == old(c.err) && res.conn == nil)
 //@   ensures old(c.err) == nil ==> res.err == nil && res.conn == callres("(*Client).newConn", 1)
 //@   assert@call((*Client).newConn#1): arg2 == 3   // label: bidi-calls-are-labelled-bidi
+
+// error.go: the two "likely misconfiguration" decorations keep nil nil, coded
+// errors untouched, and whatever they add still wraps the original (so that
+// context errors underneath keep their meaning: C15) - they never turn an
+// error into success (C04).
+//@ func wrapIfLikelyH2CNotConfiguredError(request, err) res
+//@   tags C04, C15
+//@   requires request != nil
+//@   assigns nothing
+//@   ensures err == nil ==> res == nil
+//@   ensures err != nil ==> res != nil
+//@   ensures coded(err) ==> res == err
+//@   ensures err != nil ==> (forall t ref :: {Is(res, t)} !fresh(t) ==> (Is(res, t) <==> Is(err, t)))   // label: still-wraps-the-original
+//@ func wrapIfLikelyWithGRPCNotUsedError(err) res
+//@   tags C04, C15
+//@   assigns nothing
+//@   ensures err == nil ==> res == nil
+//@   ensures err != nil ==> res != nil
+//@   ensures coded(err) ==> res == err
+//@   ensures err != nil ==> (forall t ref :: {Is(res, t)} !fresh(t) ==> (Is(res, t) <==> Is(err, t)))   // label: still-wraps-the-original
+
+//@ func (*Error).Details(e) res
+//@   tags C02
+//@   requires e != nil
+//@   assigns nothing
+//@   ensures res == e.details
+//@ func (UnaryInterceptorFunc).WrapUnary(f, next) res
+//@   tags C16
+//@   requires f != nil
+//@   assigns everything
+
+// the client conns close through the call
+//@ func (*connectUnaryClientConn).CloseRequest(cc) err
+//@   tags C04
+//@   requires cc != nil && cc.duplexCall != nil && cc.duplexCall.requestBodyWriter != nil
+//@   assigns nothing
+//@   ensures err == callres("(*duplexHTTPCall).CloseWrite", 1)
+//@ func (*connectStreamingClientConn).CloseRequest(cc) err
+//@   tags C04
+//@   requires cc != nil && cc.duplexCall != nil && cc.duplexCall.requestBodyWriter != nil
+//@   assigns nothing
+//@   ensures err == callres("(*duplexHTTPCall).CloseWrite", 1)
+//@ func (*grpcClientConn).CloseRequest(cc) err
+//@   tags C04
+//@   requires cc != nil && cc.duplexCall != nil && cc.duplexCall.requestBodyWriter != nil
+//@   assigns nothing
+//@   ensures err == callres("(*duplexHTTPCall).CloseWrite", 1)
+
+// the handler conns' Receive: the unmarshaler's verdict, success as a true nil
+//@ func (*connectUnaryHandlerConn).Receive(hc, msg) err
+//@   tags C01, C07
+//@   requires hc != nil && hc.unmarshaler.bufferPool != nil && hc.unmarshaler.reader != nil && !pooled(hc.unmarshaler.reader) && !typeis(hc.unmarshaler.reader, "*bytes.Buffer") && !typeis(hc.unmarshaler.reader, "*io.LimitedReader") && hc.unmarshaler.readMaxBytes >= 0 && hc.unmarshaler.codec != nil && msg != addr(hc.unmarshaler)
+//@   assigns everything
+//@   ensures (err == nil) == (callres("(*connectUnaryUnmarshaler).Unmarshal", 1) == nil) && (err != nil ==> err == callres("(*connectUnaryUnmarshaler).Unmarshal", 1))   // label: the-unmarshaler's-verdict-is-returned
+//@   assert@call((*connectUnaryUnmarshaler).Unmarshal#1): arg1 == msg
+//@ func (*connectUnaryUnmarshaler).Unmarshal(u, message) res
+//@   tags C01, C07, C09
+//@   requires u != nil && message != u && u.bufferPool != nil && u.reader != nil && !pooled(u.reader) && !typeis(u.reader, "*bytes.Buffer") && !typeis(u.reader, "*io.LimitedReader") && u.readMaxBytes >= 0 && u.codec != nil
+//@   assigns everything
+//@   ensures res == callres("(*connectUnaryUnmarshaler).UnmarshalFunc", 1)
+//@   assert@call((*connectUnaryUnmarshaler).UnmarshalFunc#1): arg1 == message   // label: the-caller's-message-is-the-target
+//@ func (*connectStreamingHandlerConn).Receive(hc, msg) err
+//@   tags C01, C07
+//@   requires hc != nil && hc.unmarshaler.envelopeReader.reader != nil && !pooled(hc.unmarshaler.envelopeReader.reader) && termerr(hc.unmarshaler.envelopeReader.reader) != errSpecialEnvelope && hc.unmarshaler.envelopeReader.bufferPool != nil && hc.unmarshaler.envelopeReader.codec != nil
+//@   assigns everything
+//@   ensures (err == nil) == (callres("(*connectStreamingUnmarshaler).Unmarshal", 1) == nil) && (err != nil ==> err == callres("(*connectStreamingUnmarshaler).Unmarshal", 1))   // label: the-unmarshaler's-verdict-is-returned
+//@   assert@call((*connectStreamingUnmarshaler).Unmarshal#1): arg1 == msg
+//@ func (*grpcHandlerConn).Receive(hc, msg) err
+//@   tags C01, C07
+//@   requires hc != nil && hc.unmarshaler.envelopeReader.reader != nil && !pooled(hc.unmarshaler.envelopeReader.reader) && termerr(hc.unmarshaler.envelopeReader.reader) != errSpecialEnvelope && hc.unmarshaler.envelopeReader.bufferPool != nil && hc.unmarshaler.envelopeReader.codec != nil
+//@   assigns everything
+//@   ensures (err == nil) == (callres("(*grpcUnmarshaler).Unmarshal", 1) == nil) && (err != nil ==> err == callres("(*grpcUnmarshaler).Unmarshal", 1))   // label: the-unmarshaler's-verdict-is-returned
+//@   assert@call((*grpcUnmarshaler).Unmarshal#1): arg1 == msg
+//@ func (*connectUnaryClientConn).Receive(cc, msg) err
+//@   tags C01, C06
+//@   requires cc != nil && cc.duplexCall != nil && cc.unmarshaler.bufferPool != nil && cc.unmarshaler.reader != nil && !pooled(cc.unmarshaler.reader) && !typeis(cc.unmarshaler.reader, "*bytes.Buffer") && !typeis(cc.unmarshaler.reader, "*io.LimitedReader") && cc.unmarshaler.readMaxBytes >= 0 && cc.unmarshaler.codec != nil && msg != addr(cc.unmarshaler)
+//@   assigns everything
+//@   assert@call((*connectUnaryUnmarshaler).Unmarshal#1): arg1 == msg
+//@   ensures (err == nil) == (callres("(*connectUnaryUnmarshaler).Unmarshal", 1) == nil)   // label: the-unmarshaler's-verdict-is-returned
